@@ -434,7 +434,7 @@ def _cex_loop(name):
 def _discharge_obls(interp, out, seed):
     for o in interp.obls:
         v = discharge(o.name, o.hyps, o.goal, backends=("z3",), engine="pyvc", timeout_ms=20000, seed=seed,
-                      sample={"goal": str(o.goal)[:160], "n_hyps": len(o.hyps), **{k: v for k, v in o.meta.items() if k in ("line", "why")}})
+                      sample={"goal": core.short(o.goal, 160), "n_hyps": len(o.hyps), **{k: v for k, v in o.meta.items() if k in ("line", "why")}})
         if v["status"] == "refuted":
             v["cex"] = _cex_loop(o.name)
         out.append(v)
